@@ -11,7 +11,7 @@
      convert_expr_to_pddl            "0" when everything was dropped
    Definitions only. *)
 From Coq Require Import List String Ascii Bool ZArith QArith Qabs Qround DecimalString.
-From Verif Require Import Base.Result Base.Str Spec.Poly.
+From Verif Require Import Base.Result Base.Str Base.Sexp Model.Tokenizer Spec.Layout Spec.Poly.
 Import ListNotations.
 Open Scope string_scope.
 Open Scope list_scope.
@@ -328,3 +328,17 @@ Definition transform_text (expression : string) (m : list (string * string)) : s
 
 Definition fluents_in (expression : string) : list string :=
   dedup (find_fluents (S (String.length expression)) (s2t expression)).
+
+(* ------------------------------------------------------------------ the shape of a function text *)
+(* "(" name blanks / arguments ")": atom characters and blanks between one pair of parentheses, the first token a name.
+   Hypothesis of C13_glue_readback on the keys of a symbol table; proved for the tables transform_map builds
+   (C13_symbol_table_shape) and checked on every symbol table the library handed to convert_expr_to_pddl in a run. *)
+Definition inner_char (c : ascii) : bool := atom_char c || is_ws c.
+Definition inner_of (t : string) : text := removelast (tl (s2t t)).
+Definition fl_tokens (t : string) : list string := tokenize MStr (inner_of t).
+
+Definition fl_ok_b (t : string) : bool :=
+  match s2t t with
+  | c :: r => Ascii.eqb c LP && match rev r with e :: _ => Ascii.eqb e RP | [] => false end
+  | [] => false
+  end && forallb inner_char (inner_of t) && match fl_tokens t with h :: _ => name_start h | [] => false end.
